@@ -136,6 +136,21 @@ impl ast::BinOpKind {
     }
 }
 
+impl ast::BinOpKind {
+    /// Integer division and remainder have no value when the divisor is zero.
+    /// Callers of [`Self::const_eval`] on compile-time constants must check this first.
+    pub fn is_undefined_for_divisor(&self, b: &ScalarValue) -> bool {
+        matches!((self, b), (token![binop /] | token![binop %], ScalarValue::Int(0)))
+    }
+}
+
+pub fn division_by_zero_error(divisor_span: crate::pos::Span) -> crate::diagnostic::Diagnostic {
+    error!(
+        message("division by zero in constant expression"),
+        primary(divisor_span, "divisor is zero"),
+    )
+}
+
 fn handle_shift_rhs(x: i32) -> u32 {
     // FIXME: we would ideally warn on x out of range but it's hard to get an emitter here...
     //        (also it might warn multiple times)
@@ -233,6 +248,10 @@ impl ast::VisitMut for Visitor<'_, '_> {
 
             ast::Expr::BinOp(a, op, b) => {
                 if let (Some(a_value), Some(b_value)) = (a.to_const(), b.to_const()) {
+                    if op.is_undefined_for_divisor(&b_value) {
+                        self.errors.set(self.ctx.emitter.emit(division_by_zero_error(b.span)));
+                        return;
+                    }
                     e.value = op.const_eval(a_value, b_value).into();
                 };
             },
